@@ -507,6 +507,9 @@ class Interp:
         for cand in (target, key, strip_generics(inst)):
             if cand and self.prog.has(cand):
                 body = self.prog.get(cand); break
+        if body is None and dm is None:
+            alt = self.prog.find_norm(key)
+            if alt: body = self.prog.get(alt)
         if body is not None and body.blocks:
             return self.run(body, args)
         if dm is not None:
